@@ -80,7 +80,7 @@ pub fn exec(a: &[&str]) -> String {
     }
 }
 
-const KTYPES: [(&str, usize); 8] = [("Kmer3", 3), ("Kmer5", 5), ("Kmer8", 8), ("Kmer14", 14), ("Kmer16", 16), ("K31", 31), ("Kmer32", 32), ("Kmer48", 48)];
+const KTYPES: [(&str, usize); 9] = [("Kmer3", 3), ("Kmer5", 5), ("Kmer8", 8), ("Kmer14", 14), ("Kmer16", 16), ("K31", 31), ("Kmer32", 32), ("Kmer48", 48), ("VK4", 4)];
 
 pub fn gen(rng: &mut Rng, tier: &str) -> String {
     if rng.chance(1, 5) {
